@@ -77,6 +77,43 @@ pub fn dispatch(kind: &str, a: &[&str]) -> Option<String> {
             drain(&mut rd, &mut out, n + 2);
             out.join(" ")
         }
+        // tr.retry <cap> <sched> <hex>: like tr.stream but keeps calling next() after an error
+        // (what a caller retrying a transient I/O failure does); prints delivered byte count
+        ("tr.retry", [cap, sched, h]) => {
+            let d = unhex(h);
+            let n = d.len();
+            let src = SchedRead::new(d, parse_sched(sched));
+            let mut rd = TokenReader::builder().buffer_len(p(cap)).build(src);
+            let mut out: Vec<String> = Vec::new();
+            let mut errs = 0;
+            let mut steps = 0;
+            loop {
+                steps += 1;
+                if steps > 2 * n + 40 {
+                    out.push("RUNAWAY".into());
+                    break;
+                }
+                match rd.next() {
+                    Ok(Some(t)) => out.push(show_tok(&t)),
+                    Ok(None) => {
+                        out.push("END".into());
+                        break;
+                    }
+                    Err(e) => {
+                        out.push(err_class(&e).into());
+                        errs += 1;
+                        if errs > 6 || !matches!(e.kind(), ReaderErrorKind::Read(_)) {
+                            break;
+                        }
+                    }
+                }
+            }
+            let pos = rd.position();
+            let (_, src) = rd.into_parts();
+            out.push(format!("@{}", pos));
+            out.push(format!("D{}", src.delivered));
+            out.join(" ")
+        }
         // tr.skip <cap|slice> <sched> <hex> <ntok> : read ntok tokens (the last must be Open), skip_container, drain
         ("tr.skip", [cap, sched, h, ntok]) | ("tr.skipuv", [cap, sched, h, ntok]) => {
             let d = unhex(h);
